@@ -38,7 +38,7 @@ def write(ws, rel, data, mode=None):
         os.chmod(p, mode)
 
 
-def push(ws, args=(), env=None, timeout=60, binary=None, retry_ok=False, via_d=None):
+def push(ws, args=(), env=None, timeout=60, binary=None, retry_ok=False, via_d=None, nofile=None):
     """Run `rapidquilt push <args>` on the workspace.  Returns (rc, stdout, stderr).
     Every fourth workspace (by its name) is addressed with `-d <ws>` from an empty directory elsewhere instead of
     cwd = ws; nothing may appear in that directory (a stray write yields rc -998, which every caller treats as a crash)."""
@@ -67,8 +67,12 @@ def push(ws, args=(), env=None, timeout=60, binary=None, retry_ok=False, via_d=N
         cwd = tempfile.mkdtemp(prefix='cwd.', dir=base)
         argv += ['-d', ws]
 
+    def limit():
+        import resource
+        resource.setrlimit(resource.RLIMIT_NOFILE, (nofile, nofile))
+
     def run(t):
-        p = subprocess.run(argv, cwd=cwd, env=e, stdout=subprocess.PIPE, stderr=subprocess.PIPE, timeout=t)
+        p = subprocess.run(argv, cwd=cwd, env=e, stdout=subprocess.PIPE, stderr=subprocess.PIPE, timeout=t, preexec_fn=limit if nofile else None)
         return p.returncode, p.stdout.decode('utf-8', 'replace'), p.stderr.decode('utf-8', 'replace')
     try:
         try:
